@@ -107,7 +107,8 @@ class NameScenario(explore.Scenario):
         names = NAMES[:self.params['names']]
         w = World()
         w.bw = fakes.BusWorld()
-        w.peers = [w.bw.connect() for _ in range(k)]
+        w.peers = [w.bw.connect(hello=i not in self.params.get('nohello', ()))
+                   for i in range(k)]
         w.names = names
         w.model = Model(k, names)
         w.uniq = [p.name for p in w.peers]
@@ -466,6 +467,11 @@ def run(ctx):
         explore.explore(ctx, NameScenario, {'clients': 4, 'names': 1},
                         max_depth=60, label='4 clients, 1 name')
         explore.explore(ctx, NameScenario,
+                        {'clients': 3, 'names': 1, 'nohello': (1,),
+                         'flags': [0, 1, 3, 4]},
+                        max_depth=40,
+                        label='3 clients, one of which never says Hello')
+        explore.explore(ctx, NameScenario,
                         {'clients': 3, 'names': 2, 'flags': [0, 1, 2, 3, 4, 6]},
                         max_depth=3, label='3 clients, 2 names, depth 3')
     else:
@@ -474,6 +480,10 @@ def run(ctx):
         explore.explore(ctx, NameScenario, {'clients': 4, 'names': 1},
                         max_depth=60, label='4 clients, 1 name',
                         max_states=400000)
+        explore.explore(ctx, NameScenario,
+                        {'clients': 3, 'names': 1, 'nohello': (1,)},
+                        max_depth=60,
+                        label='3 clients, one of which never says Hello')
         explore.explore(ctx, NameScenario, {'clients': 3, 'names': 2},
                         max_depth=6, label='3 clients, 2 names, depth 6',
                         max_states=300000)
